@@ -694,3 +694,14 @@ def check_rejections_propagate(run: Run, rule: str, src, cg, raised_in: list, wh
             run.ok(rule, f.qualname, 'no handler between the rejection and the caller', nontrivial=False, loc=loc_of(f.module.path, f.node))
     if n < 50:
         raise AnalysisError(rule, f'only {n} functions on the translation path')
+
+
+def exception_bases(src) -> dict:
+    """library exception class -> names of its ancestors (for handlers that name a base class)"""
+    out = {}
+    if not src.has_cls(LIB_ROOT):
+        return out
+    root = src.cls(LIB_ROOT)
+    for c in [root] + list(src.subclasses(root)):
+        out[c.name] = {getattr(b, 'name', str(b)).split('.')[-1] for b in src.mro(c)[1:]}
+    return out
